@@ -149,6 +149,27 @@ def bounded(rep, tier, seed):
                 bad.append(f"{d}: unused extra data columns change results {diff[:4]} (e.g. column {culprit!r})")
         except Exception as ex:  # noqa: BLE001
             bad.append(f"{d}: unused extra data columns make the call fail: {ex!r}"[:300])
+        # R: a rounded user rule with an offset (in the shipped parameters only 2001-2003 carry one),
+        # requested several times from ONE environment with different target sets / options
+        from _gettsim.shared import policy_info
+
+        @policy_info(params_key_for_rounding="verif_grp")
+        def verif_rounded_m(bruttolohn_m: float) -> float:
+            return bruttolohn_m * 0.37
+
+        p_user = dict(e.params)
+        p_user["verif_grp"] = {"rounding": {"verif_rounded_m": {"base": 1, "direction": "up", "to_add_after_rounding": 7}}}
+        f_user = [*([e.functions] if isinstance(e.functions, dict) else list(e.functions)), verif_rounded_m]
+        want_r = numpy.ceil(pop["bruttolohn_m"].to_numpy() * 0.37) + 7
+        for tg, kw in ((["verif_rounded_m"], {}), (["verif_rounded_m", defaults[0]], {}), (["verif_rounded_m"], {"debug": True}), ([defaults[-1], "verif_rounded_m"], {})):
+            try:
+                r, _ = apirel.simulate(e, pop, targets=tg, functions=f_user, params=p_user, **kw)
+                n_eval += 1
+                distinct.add((d, "rounded-user-rule", tuple(tg), json.dumps(kw)))
+                if not numpy.array_equal(r["verif_rounded_m"].to_numpy(), want_r):
+                    bad.append(f"{d}: rounded user rule (base 1, up, +7) requested with targets={tg} {kw} on a reused environment: {r['verif_rounded_m'].tolist()[:3]}.. instead of {want_r.tolist()[:3]}..")
+            except Exception as ex:  # noqa: BLE001
+                bad.append(f"{d}: rounded user rule with targets={tg} {kw}: call fails: {ex!r}"[:300])
         # O: options
         for kw in ({"debug": True}, {"check_minimal_specification": "warn"}, {"debug": True, "check_minimal_specification": "warn"}):
             r, _ = apirel.simulate(e, pop, targets=defaults, **kw)
